@@ -507,6 +507,33 @@ func checkTransition(pre *obs, op *opDef, res opResult, post *obs, postIdx map[*
 			if len(missing) > 0 {
 				f.add("spurious-eviction", "[%s] disappeared although no limit can bind: %s --%s--> %s", tokNames(missing), pre.describe(), op.name, post.describe())
 			}
+			// reference partition: no limit can bind, so the reorg run only promotes. A sender with a
+			// newly placed transaction must offer exactly the maximal gap-free run of its pooled
+			// nonces from the state nonce (the rest queued); every other sender's lists are untouched.
+			if len(missing) == 0 {
+				for s := 0; s < NS; s++ {
+					if freshBy[s] == 0 {
+						if accBy[s] == 0 && (!sameList(pre.P[s], post.P[s]) || !sameList(pre.Q[s], post.Q[s])) {
+							f.add("partition-vs-reference", "%s submitted nothing and no limit can bind, but its lists changed: %s --%s--> %s", senderNames[s], pre.describe(), op.name, post.describe())
+						}
+						continue
+					}
+					have := map[uint64]bool{}
+					for _, t := range post.P[s] {
+						have[t.nonce] = true
+					}
+					for _, t := range post.Q[s] {
+						have[t.nonce] = true
+					}
+					n := uint64(post.cs.Nonce[s])
+					for have[n] {
+						n++
+					}
+					if want := int(n - uint64(post.cs.Nonce[s])); want != len(post.P[s]) {
+						f.add("partition-vs-reference", "%s pools a gap-free run of %d nonces from its state nonce but offers %d: %s --%s--> %s", senderNames[s], want, len(post.P[s]), pre.describe(), op.name, post.describe())
+					}
+				}
+			}
 		}
 		for _, t := range missing {
 			if pre.locals[t.sender] {
